@@ -24,14 +24,17 @@ cargo test --workspace --no-fail-fast --offline >> $log 2>&1; a=$?
 mv /tmp/_demo_$PID.rs $demo
 echo "confirm: suite_with_change_rc=$a demo_with_change_rc=$b demo_without_change_rc=$c" | tee -a $log
 if [ $a -ne 0 ] || [ $b -eq 0 ] || [ $c -ne 0 ]; then echo "NOT CONFIRMED" | tee -a $log; exit 4; fi
-# run the checks against /repo with the change applied
+# run the checks against /repo with the change applied (exclusive use of /repo)
 cd $ROOT
+exec 9>/var/lock/verif_repo.lock && flock -x 9
+export VERIF_NO_REPO_LOCK=1
 git -C /repo apply $OUT/patch.diff || { echo "patch does not apply to /repo"; exit 5; }
 res=$OUT/checks.txt; : > $res
 for p in ${CHECKS:-C01 C02 C03 C04 C05 C06 C07 C08 C09 C10 C11 C12 C13 C14 C15 C16}; do
   ./check $p --tier quick 2>&1 | grep -v "^KNOWN" | tail -2 | sed "s/^/$p: /" >> $res
 done
 git -C /repo checkout -- .
+flock -u 9
 git -C /repo status --short | grep -v '^??' && echo "WARNING: /repo not clean"
 caught=$(grep -c VIOLATION $res)
 echo "caught_by=$(grep VIOLATION $res | sed 's/.*property=\(C[0-9]*\).*/\1/' | sort -u | tr '\n' ' ')" | tee -a $res
